@@ -63,17 +63,20 @@ def _dinst(tier):
     return [{"pipe": p, "L": L} for p in PIPES]
 
 
-@harness(instances=_dinst, kinds=I(0, 2, n=lambda i: i["L"]), j=I(0, lambda i: i["L"]), jt=I(0, 1), sc=I(0, 2), timeout=(150, 900), stock=False)
+@harness(instances=_dinst, kinds=I(0, 2, n=lambda i: i["L"]), j=I(0, lambda i: i["L"]), jt=I(0, 2), sc=I(0, 2), timeout=(150, 900), stock=False)
 def h_direct(a, inst):
     """kinds: the notification kinds the source pushes; the first `s` of them synchronously inside its subscribe function, where an
     exception raised by the observer escapes the subscribe function (as with BehaviorSubject replaying its value), the others
     later, after subscribe() returned (exceptions from the observer are swallowed by the emitter, which keeps emitting).  The
-    subscriber's on_next raises at its j-th call; with jt its on_error / on_completed handlers raise as well"""
+    subscriber's on_next raises at its j-th call; with jt == 1 its on_error / on_completed handlers raise as well; with jt == 2 the
+    first terminal handler re-entrantly makes the (still live, non-conforming) source push its remaining notifications while the
+    handler is still running"""
     err = Injected("src")
     boom = Injected("subscriber")
     L = inst["L"]
     s = 0 if a.sc == 0 else (1 if a.sc == 1 else L)
     saved = []
+    pending = [k for k in a.kinds]
 
     def push(observer, k):
         if k == 0:
@@ -85,8 +88,10 @@ def h_direct(a, inst):
 
     def subscribe(observer, scheduler=None):
         saved.append(observer)
-        for k in a.kinds[:s]:
-            push(observer, k)  # an exception from downstream escapes subscribe()
+        for _ in range(s):
+            if not pending:
+                break
+            push(observer, pending.pop(0))  # an exception from downstream escapes subscribe()
         return Disposable()
 
     log = []
@@ -98,15 +103,30 @@ def h_direct(a, inst):
         if a.j and cnt[0] == a.j:
             raise boom
 
+    reentered = [False]
+
+    def reenter():
+        if a.jt == 2 and not reentered[0]:
+            reentered[0] = True
+            while pending:
+                k = pending.pop(0)
+                for observer in list(saved):
+                    try:
+                        push(observer, k)
+                    except Injected:
+                        pass
+
     def on_error(e):
         log.append("E")
-        if a.jt:
+        if a.jt == 1:
             raise boom
+        reenter()
 
     def on_completed():
         log.append("C")
-        if a.jt:
+        if a.jt == 1:
             raise boom
+        reenter()
 
     src = Observable(subscribe).pipe(*PIPES[inst["pipe"]]())
     try:
@@ -117,8 +137,9 @@ def h_direct(a, inst):
             src.subscribe(on_next, on_error, on_completed)
     except Injected:
         pass  # the subscriber's own exception may surface at its subscribe() call
-    for k in a.kinds[s:]:
-        for observer in saved:
+    while pending:
+        k = pending.pop(0)
+        for observer in list(saved):
             try:
                 push(observer, k)
             except Injected:
